@@ -153,7 +153,9 @@ class Poly:
             ce = _rat_pow(c, e)
             if e.denominator % 2 == 0:
                 # even root: (a^x)^e is |a|^(x e) wherever it is defined
-                m = tuple((a if _nonneg_atom(a) else ("app", "abs", Poly.atom(a).key()), x) for a, x in m)
+                # (a^x)^e with x an even integer is |a|^(x e); for other x the root is defined only for a >= 0
+                m = tuple((a if (_nonneg_atom(a) or not (x.denominator == 1 and int(x) % 2 == 0))
+                           else ("app", "abs", Poly.atom(a).key()), x) for a, x in m)
             if ce is not None:
                 return Poly({tuple((a, x * e) for a, x in m): ce}).renorm()
             # irrational numeric factor: keep the number as an opaque atom
@@ -220,6 +222,62 @@ class Poly:
 
 def as_poly(x):
     return x if isinstance(x, Poly) else Poly.const(x)
+
+
+def diff(p, x, chain=None):
+    """symbolic derivative of Poly `p` with respect to atom `x`; `chain` maps atoms that depend
+    on x to their derivative (Poly).  Raises AnalysisError for constructs it cannot differentiate."""
+    chain = chain or {}
+    out = Poly()
+    for m, c in p.terms.items():
+        for i, (a, e) in enumerate(m):
+            da = _datom(a, x, chain)
+            if da.is_zero():
+                continue
+            rest = Poly({tuple(m[:i] + m[i + 1:]): c})
+            out = out + rest * Poly.atom(a, e - 1) * e * da if e != 1 else out + rest * da
+    return out
+
+
+def _depends(p, x, chain):
+    syms_x = {x} | set(chain)
+    for a in p.atoms():
+        if a in syms_x:
+            return True
+        if a[0] == "app":
+            if any(_depends(poly_from_key(k), x, chain) for k in a[2:]):
+                return True
+        if a[0] == "par" and _depends(poly_from_key(a[1]), x, chain):
+            return True
+    return False
+
+
+def _datom(a, x, chain):
+    if a == x:
+        return Poly.const(1)
+    if a in chain:
+        return as_poly(chain[a])
+    if a[0] in ("sym", "num"):
+        return Poly()
+    if a[0] == "par":
+        return diff(poly_from_key(a[1]), x, chain)
+    if a[0] == "app":
+        args = [poly_from_key(k) for k in a[2:]]
+        if not any(_depends(u, x, chain) for u in args):
+            return Poly()
+        f = a[1]
+        u = args[0]
+        du = diff(u, x, chain)
+        if f == "abs":
+            return u * Poly.atom(a, -1) * du
+        if f == "exp":
+            return Poly.atom(a) * du
+        if f == "log":
+            return du / u
+        if f == "log10":
+            return du / (u * Poly.atom(("app", "log", Poly.const(10).key())))
+        raise AnalysisError("cannot differentiate %s" % fmt_atom(a))
+    raise AnalysisError("cannot differentiate atom %r" % (a,))
 
 
 def _mono_mul(m1, m2):
@@ -322,14 +380,27 @@ def f_abs(p):
             else:
                 out = out * Poly.atom(("app", "abs", Poly.atom(a).key()), x)
         return out
+    if all(c > 0 for c in p.terms.values()) and all(_nonneg_atom(a) for a in p.atoms()):
+        return p
     c, m, rest = p.content()
     out = f_abs(Poly({m: c}))
+    if all(c2 > 0 for c2 in rest.terms.values()) and all(_nonneg_atom(a) for a in rest.atoms()):
+        return out * rest
     return out * Poly.atom(("app", "abs", rest.key()))
+
+
+POSITIVE_HOOKS = []   # callables atom -> bool: physical positivity assumptions registered by rules
 
 
 def _nonneg_atom(a):
     if a[0] == "app" and a[1] in ("abs", "exp"):
         return True
+    for h in POSITIVE_HOOKS:
+        if h(a):
+            return True
+    if a[0] == "par":
+        q = poly_from_key(a[1])
+        return all(c > 0 for c in q.terms.values()) and all(_nonneg_atom(x) for x in q.atoms())
     if a[0] == "num":
         return True
     if a[0] == "app" and a[1] == "max":
@@ -667,6 +738,53 @@ def _feasible(assign):
     return True
 
 
+def _exp_vector(m, order):
+    d = dict(m)
+    return tuple(d.get(a, ZERO) for a in order)
+
+
+def poly_divide(s, p, cap=200):
+    """exact division of Laurent polynomials: returns q with s == q*p, or None"""
+    if p.is_zero():
+        return None
+    order = sorted(s.atoms() | p.atoms(), key=repr)
+    lead_p = max(p.terms, key=lambda m: _exp_vector(m, order))
+    cp = p.terms[lead_p]
+    inv_lead = tuple((a, -x) for a, x in lead_p)
+    q = Poly()
+    rem = s
+    for _ in range(cap):
+        if rem.is_zero():
+            return q
+        lm = max(rem.terms, key=lambda m: _exp_vector(m, order))
+        t = Poly({_mono_mul(lm, inv_lead): rem.terms[lm] / cp})
+        q = q + t
+        rem = rem - t * p
+        if len(rem.terms) > 4 * (len(s.terms) + len(p.terms)) + 8:
+            return None
+    return None
+
+
+def simplify_par(poly, depth=0):
+    """cancel  P * par(P)^-n  ->  par(P)^-(n-1)  where a group of terms is an exact multiple of P"""
+    if depth > 6:
+        return poly
+    for a in sorted(poly.atoms(), key=repr):
+        if a[0] != "par":
+            continue
+        p = poly_from_key(a[1])
+        exps = sorted({dict(m)[a] for m in poly.terms if a in dict(m) and dict(m)[a] < 0 and dict(m)[a].denominator == 1})
+        for e in exps:
+            grp = {m: c for m, c in poly.terms.items() if dict(m).get(a) == e}
+            rest = Poly({m: c for m, c in poly.terms.items() if dict(m).get(a) != e})
+            stripped = Poly({_mono_mul(m, ((a, -e),)): c for m, c in grp.items()})
+            q = poly_divide(stripped, p)
+            if q is not None:
+                new = rest + q * Poly.atom(a, e + 1) if e + 1 != 0 else rest + q
+                return simplify_par(new, depth + 1)
+    return poly
+
+
 def compare(a, b, rng=None, npoints=48):
     """Compare two guarded values as functions of their atoms.
     Returns list of differences: each {guard, left, right, proved: 'symbolic'|'numeric', point}.
@@ -685,6 +803,9 @@ def compare(a, b, rng=None, npoints=48):
         kb = vb.key() if vb is not None else None
         if ka == kb:
             continue
+        if va is not None and vb is not None and (ka, kb) not in seen:
+            if simplify_par(va - vb).is_zero():
+                continue
         if (ka, kb) in seen:
             continue
         if va is not None and vb is not None:
